@@ -4,7 +4,7 @@ import itertools
 import z3
 
 from ..symx import (SR, SC, explore, symc, symr, ceq, req, mval, mcval, Ctx, TOK, lift)
-from ..stubs import patched, float_stub
+from ..stubs import patched, float_stub, NPProxy
 
 META = {
     'explanation': (
@@ -119,6 +119,7 @@ def fam_roundtrip(R, n, first, arcs=True):
     import svgpathtools.path as P
     from svgpathtools.path import Path, Arc, Line
     P.float = float_stub
+    P.np = NPProxy()
     R.stub('path.float -> placeholder-token map', 'Arc._parameterize -> no-op (C01 only)')
     R.bound(n=n, first_kind=first, options='all 8', kinds=KINDS)
     Arc._parameterize = lambda self: None
@@ -141,7 +142,7 @@ def fam_roundtrip(R, n, first, arcs=True):
                     q = e
                 return p, d, q
 
-            for ctx, (kind, val) in explore(run, maxpaths=20000, logic='QF_LRA'):
+            for ctx, (kind, val) in explore(run, maxpaths=20000, logic='QF_NRA'):
                 R.path(ctx)
                 if kind != 'ok':
                     R.error('%s %s: unexpected %s %r' % (kinds, opts, kind, val))
